@@ -44,7 +44,8 @@ winning call closes after taking the running token.  (`wg.Wait()` additionally w
 that have already released the token and touch no shared state any more; this is not modelled, the
 model lets `Close` return earlier than the code does.)
 
-`deadline = scheduled − clock.Now()` (`decide`) and `clock.NewTimer(deadline)` (`arm`) are two steps:
+`deadline = scheduled − clock.Now()` (`decide`; the subtraction saturates at ±2^63 ns as `Time.Sub`
+does) and `clock.NewTimer(deadline)` (`arm`) are two steps:
 the clock may advance between them, and then the timer fires late by exactly that advance
 (`late_bound` in `KitProofs/Props/C06.lean`; ghost fields `readAt`, `armAt`).
 -/
@@ -108,6 +109,14 @@ def parkPoints : List String :=
   ["loop.peeked", "loop.sawEmpty", "loop.beforeArm", "loop.beforeTimer", "loop.parked", "loop.fired", "loop.reset",
    "loop.exit", "execute.popped", "process.resetSent", "process.tokenTaken",
    "enqueue.afterStoppedCheck", "close.afterCAS"]
+
+/-- `time.Duration` is an int64 of nanoseconds and `Time.Sub` SATURATES: a span beyond ≈ ±292 years
+becomes `maxDuration` / `minDuration`. -/
+def maxDur : Int := 9223372036854775807
+def minDur : Int := -9223372036854775808
+
+/-- `scheduledTime.Sub(now)` as Go computes it. -/
+def satDur (d : Int) : Int := if maxDur < d then maxDur else if d < minDur then minDur else d
 
 inductive Token where
   | free | loop | close
@@ -282,8 +291,8 @@ def step (cfg : Cfg) (s : State κ ν) : Label κ ν → Option (State κ ν)
   | .decide =>
     match s.pc with
     | .polled r =>
-      if r.time - s.now < halfMs then some { s with pc := .firing r, readAt := s.now }
-      else some { s with pc := .arming r, timer := r.time - s.now, readAt := s.now }
+      if satDur (r.time - s.now) < halfMs then some { s with pc := .firing r, readAt := s.now }
+      else some { s with pc := .arming r, timer := satDur (r.time - s.now), readAt := s.now }
     | _ => none
   | .arm =>
     match s.pc with
